@@ -373,7 +373,46 @@ fn drive_parse(r: &mut Rng, n: usize, log: &mut Log) {
     }
 }
 
+fn ev_und(log: &mut Log) {
+    use std::convert::TryFrom;
+    let res = guard(|| {
+        let d = Language::default();
+        let mut c = Language::from_bytes(b"en").unwrap();
+        let en_empty = c.is_empty();
+        c.clear();
+        let n = Language::try_from(None::<&str>).unwrap();
+        let p = Language::from_bytes(b"UND").unwrap();
+        let s = Language::try_from(Some("EN")).unwrap();
+        json!({"op":"und","default": b(d.as_str()),"cleared": b(c.as_str()),"try_none": b(n.as_str()),"parsed_und": b(p.as_str()),
+               "default_empty": d.is_empty(),"cleared_empty": c.is_empty(),"try_none_empty": n.is_empty(),"parsed_und_empty": p.is_empty(),
+               "en_empty": en_empty,"try_some": b(s.as_str()),
+               "all_equal": d == c && c == n && n == p && d.to_string() == "und" && d == "und" && LanguageIdentifier::default().language == d})
+    });
+    match res {
+        Ok(v) => log.ev(v),
+        Err(at) => log.ev(json!({"op":"li_parse","in": [],"out": {"k":"panic","at": short_at(&at)},"st": default_li(),"ser": []})),
+    }
+}
+
+fn ev_ext_types(log: &mut Log) {
+    use unic_locale_impl::ExtensionType;
+    for byte in 0u16..256 {
+        let bt = byte as u8;
+        let (out, ch) = match guard(|| ExtensionType::from_byte(bt)) {
+            Ok(Ok(ExtensionType::Unicode)) => ("u", 0u32),
+            Ok(Ok(ExtensionType::Transform)) => ("t", 0),
+            Ok(Ok(ExtensionType::Private)) => ("x", 0),
+            Ok(Ok(ExtensionType::Other(c))) => ("other", c as u32),
+            Ok(Err(_)) => ("err", 0),
+            Err(_) => ("panic", 0),
+        };
+        log.ev(json!({"op":"ext_type","b": bt,"out": out,"ch": ch}));
+    }
+}
+
 fn drive_sub(r: &mut Rng, n: usize, log: &mut Log) {
+    ev_und(log);
+    ev_ext_types(log);
     let kinds = ["language", "script", "region", "variant"];
     for _ in 0..n {
         let kind = *r.pick(&kinds);
